@@ -144,7 +144,18 @@ pub fn entities_with_schema(w: &GWorld, gs: &GSchema, schema: &Schema) -> Result
 }
 
 pub fn case(ctx: &mut CaseCtx) {
-    let gs = gen_schema(&mut ctx.rng, &SchemaOpts::default());
+    let mut gs = gen_schema(&mut ctx.rng, &SchemaOpts::default());
+    // half of the schemas give every action's context a required attribute `zact` of the action entity type
+    let with_zact = ctx.rng.bool();
+    if with_zact {
+        for a in gs.actions.iter_mut() {
+            let ty = qualify(&a.ns, "Action");
+            if let Some(ap) = a.applies.as_mut() {
+                ap.context.retain(|x| x.name != "zact");
+                ap.context.push(GAttr { name: "zact".into(), ty: GType::Ent(ty), required: true });
+            }
+        }
+    }
     let schema = match load_schema(ctx, &gs) {
         Some(s) => s,
         None => return,
@@ -155,7 +166,10 @@ pub fn case(ctx: &mut CaseCtx) {
         return;
     }
     let env = ctx.rng.pick_clone(&envs);
-    let wg = WorldGen::new(&mut ctx.rng, &gs);
+    let mut wg = WorldGen::new(&mut ctx.rng, &gs);
+    for a in &gs.actions {
+        wg.pools.entry(qualify(&a.ns, "Action")).or_default().push(a.uid());
+    }
     let faulty = ctx.rng.chance(3, 10);
     let depth = 1 + ctx.rng.below(4);
     let (pol, faults) = {
@@ -170,6 +184,22 @@ pub fn case(ctx: &mut CaseCtx) {
         let p = typed_policy(&mut g, depth);
         (p, g.faults)
     };
+    // `action in [<action literal>, context.zact]`: a set mixing a literal with a non-literal action-typed element
+    let mut pol = pol;
+    if with_zact && faults == 0 && ctx.rng.chance(1, 3) {
+        let acts: Vec<Uid> = gs.actions.iter().map(|a| a.uid()).filter(|u| u.ty == env.action.ty).collect();
+        let lit = ctx.rng.pick_clone(&acts);
+        let mixed = GExpr::bin(BinOp::In, GExpr::Var(Var::Action), GExpr::Set(vec![GExpr::Ent(lit), GExpr::attr(GExpr::Var(Var::Context), "zact")]));
+        match ctx.rng.below(3) {
+            0 => pol.conds = vec![(true, mixed)],
+            1 => pol.conds.push((true, mixed)),
+            _ => {
+                let body = pol.conds.pop().map(|(w, c)| if w { c } else { GExpr::Not(c.b()) }).unwrap_or(GExpr::Bool(true));
+                pol.conds.push((true, GExpr::ite(mixed, body, GExpr::Bool(true))));
+            }
+        }
+        ctx.count("shape:action-in-mixed-set");
+    }
     // one case in five is a template: `principal is P in ?principal` (still pinning the environment),
     // linked to an entity of a type P can be a member of
     let mut pol = pol;
